@@ -26,6 +26,7 @@ type Solver struct {
 }
 
 var solverBin = "z3-new"
+var checkSatCmd = "(check-sat)"
 
 var totalSolverNanos int64
 var totalQueries int64
@@ -54,7 +55,7 @@ func NewSolver(bin string) (*Solver, error) {
 	if p := os.Getenv("SYMGO_SMTLOG"); p != "" {
 		s.log, _ = os.Create(fmt.Sprintf("%s.%d.smt2", p, cmd.Process.Pid))
 	}
-	s.Send("(set-option :produce-models true)\n")
+	s.Send("(set-option :produce-models true)\n(set-logic QF_BV)\n")
 	return s, nil
 }
 
@@ -100,14 +101,24 @@ const (
 
 func (r SatResult) String() string { return [...]string{"unsat", "sat", "unknown"}[r] }
 
-// CheckSat runs (check-sat) with a timeout in ms. Any error line => Unknown.
+// CheckSat decides the current assertion stack. It first gives z3's incremental core a short
+// budget (cheap for the many easy branch queries), then falls back to the qfbv tactic pipeline
+// on the same stack. Any error line => Unknown.
 func (s *Solver) CheckSat(timeoutMs int) (SatResult, string) {
+	// With (set-logic QF_BV) and an open push level z3 answers through its incremental
+	// SAT-based bit-vector solver, which keeps the bit-blasted path condition between queries.
+	return s.checkOnce(checkSatCmd, timeoutMs)
+}
+
+var quickMs = 700
+
+func (s *Solver) checkOnce(cmd string, timeoutMs int) (SatResult, string) {
 	t0 := time.Now()
 	pre := ""
 	if s.name != "cvc5" {
 		pre = fmt.Sprintf("(set-option :timeout %d)\n", timeoutMs)
 	}
-	lines, err := s.roundTrip(pre + "(check-sat)\n")
+	lines, err := s.roundTrip(pre + cmd + "\n")
 	d := time.Since(t0)
 	s.tsolve += d
 	s.nq++
@@ -221,7 +232,7 @@ func (s *Solver) Close() {
 // oneShot runs a standalone query text (full script without check-sat) in a fresh solver context
 // of this process: (reset) + text + (check-sat).
 func (s *Solver) OneShot(text string, timeoutMs int) (SatResult, string) {
-	s.Send("(reset)\n(set-option :produce-models true)\n")
+	s.Send("(reset)\n(set-option :produce-models true)\n(set-logic QF_BV)\n(push 1)\n")
 	s.Send(text)
-	return s.CheckSat(timeoutMs)
+	return s.checkOnce(checkSatCmd, timeoutMs)
 }
